@@ -23,6 +23,9 @@ type refReceiver struct {
 	Invalid string // "" | duplicate | unknown | nonfile
 	R       *core.Rand
 	NoFin   bool
+	// ReqLinks: also request hard-link members (announced with a regular mode:
+	// their id is a valid request and yields the file\'s bytes)
+	ReqLinks bool
 
 	mu        sync.Mutex
 	cond      *sync.Cond
@@ -156,7 +159,7 @@ func (rr *refReceiver) run(ctx context.Context, s fsutil.Stream) error {
 			end := rr.endSeen
 			var ids []uint32
 			for ; next < n; next++ {
-				if isRegular(rr.stats[next]) && rr.stats[next].Linkname == "" {
+				if isRegular(rr.stats[next]) && (rr.stats[next].Linkname == "" || rr.ReqLinks) {
 					ids = append(ids, uint32(next))
 				}
 			}
@@ -178,7 +181,7 @@ func (rr *refReceiver) run(ctx context.Context, s fsutil.Stream) error {
 		rr.mu.Lock()
 		var ids []uint32
 		for i, st := range rr.stats {
-			if isRegular(st) && st.Linkname == "" {
+			if isRegular(st) && (st.Linkname == "" || rr.ReqLinks) {
 				ids = append(ids, uint32(i))
 			}
 		}
